@@ -71,6 +71,7 @@ const (
 type balloons struct {
 	options   *policy.BackendOptions // configuration common to all policies
 	bpoptions *BalloonsOptions       // balloons-specific configuration
+	uoptions  *BalloonsOptions       // configuration as given, before defaults and built-in types
 	cch       cache.Cache            // nri-resource-policy cache
 	allowed   cpuset.CPUSet          // bounding set of CPUs we're allowed to use
 	reserved  cpuset.CPUSet          // system-/kube-reserved CPUs
@@ -210,6 +211,7 @@ func (p *balloons) Setup(policyOptions *policy.BackendOptions) error {
 	if err := p.setConfig(bpoptions); err != nil {
 		return balloonsError("failed to create %s policy: %v", PolicyName, err)
 	}
+	p.uoptions = bpoptions.DeepCopy()
 	log.Debug("first effective configuration:\n%s\n", utils.DumpJSON(p.bpoptions))
 
 	return nil
@@ -1237,8 +1239,10 @@ func (p *balloons) Reconfigure(newCfg interface{}) error {
 		log.Debug("effective configuration:\n%s\n", utils.DumpJSON(p.bpoptions))
 	}()
 	newBalloonsOptions := balloonsOptions.DeepCopy()
-	if !changesBalloons(p.bpoptions, newBalloonsOptions) {
-		if !changesCpuClasses(p.bpoptions, newBalloonsOptions) {
+	// Compare with the configuration as it was given, not with our
+	// effective copy of it (filled with defaults and built-in types).
+	if !changesBalloons(p.uoptions, newBalloonsOptions) {
+		if !changesCpuClasses(p.uoptions, newBalloonsOptions) {
 			log.Info("no configuration changes")
 		} else {
 			log.Info("configuration changes only on CPU classes")
@@ -1247,9 +1251,13 @@ func (p *balloons) Reconfigure(newCfg interface{}) error {
 			// must be kept in use, because each Balloon
 			// instance holds a direct reference to its
 			// BalloonDef.
-			for i := range p.bpoptions.BalloonDefs {
-				p.bpoptions.BalloonDefs[i].CpuClass = newBalloonsOptions.BalloonDefs[i].CpuClass
+			for _, newDef := range newBalloonsOptions.BalloonDefs {
+				if blnDef := p.balloonDefByName(newDef.Name); blnDef != nil {
+					blnDef.CpuClass = newDef.CpuClass
+				}
 			}
+			p.bpoptions.IdleCpuClass = newBalloonsOptions.IdleCpuClass
+			p.uoptions = newBalloonsOptions.DeepCopy()
 			// (Re)configures all CPUs in balloons.
 			if err := p.resetCpuClass(); err != nil {
 				log.Warnf("failed to reset CPU class: %v", err)
@@ -1262,10 +1270,19 @@ func (p *balloons) Reconfigure(newCfg interface{}) error {
 		}
 		return nil
 	}
+	allowed, reserved, applied := p.allowed, p.reserved, p.bpoptions
 	if err := p.setConfig(newBalloonsOptions); err != nil {
 		log.Error("config update failed: %v", err)
+		if p.bpoptions == applied {
+			// Rejected before anything was applied.
+			p.allowed, p.reserved = allowed, reserved
+		} else {
+			// Partially applied, make reverting rebuild everything.
+			p.uoptions = nil
+		}
 		return err
 	}
+	p.uoptions = newBalloonsOptions.DeepCopy()
 	log.Info("config updated successfully")
 	// Re-admit only containers that are created or running. Stopped
 	// containers have released their resources and must not regain them.
